@@ -164,6 +164,12 @@ def static_copy_contracts(repo):
                 else:
                     srcs = [src]
                 for s in srcs:
+                    if isinstance(s, ast.Name):
+                        # a local: look through `name = <expr>` when it is assigned exactly once in copy()
+                        assigns = [n.value for n in ast.walk(copy_fn) if isinstance(n, ast.Assign) and len(n.targets) == 1
+                                   and isinstance(n.targets[0], ast.Name) and n.targets[0].id == s.id]
+                        if len(assigns) == 1:
+                            s = assigns[0]
                     if isinstance(s, ast.Attribute) and isinstance(s.value, ast.Name) and s.value.id == 'self':
                         f = s.attr
                         if _is_mutable(fields.get(f, '')) and (clsname, kw or f) not in CTOR_CONVERTS \
